@@ -34,6 +34,21 @@ EXPLANATION = (
     'API on plain floats (rotation recovered as atan2(s,c)).')
 
 TOL = Fraction(1, 10**11)
+MARGIN = Fraction(1, 10**4)     # only used to ask for robust witnesses
+
+
+def prove2(ctx, name, goal, robust_goal=None, **kw):
+    """prove `goal`; if refuted, prefer a witness that violates it by a margin
+    (`robust_goal` is weaker than `goal`) so that the float replay is not
+    on a knife edge"""
+    rec = ctx.prove(name, goal, **kw)
+    if rec['status'] == 'sat' and robust_goal is not None:
+        ctx.solver.push()
+        ctx.solver.add(z3.Not(core._z3bool(robust_goal)))
+        if ctx.check(backend='witness') == 'sat':
+            rec['model'] = ctx.model_values()
+        ctx.solver.pop()
+    return rec
 
 
 # ---------------------------------------------------------------------------
@@ -302,33 +317,39 @@ class RectContain(Harness):
         return out
 
     @staticmethod
-    def _order(ctx, f, s, order):
+    def _corners(ctx, order):
+        """centre + half extents: any two corners with distinct coordinates"""
+        pos = ctx.cplx('pos')
+        w = ctx.real('w', positive=True)
+        h = ctx.real('h', positive=True)
+        ll, ur = pos - w - 1j * h, pos + w + 1j * h
+        ul, lr = pos - w + 1j * h, pos + w - 1j * h
+        c = dict(ll=ll, ur=ur, ul=ul, lr=lr)
         a, b = order.split('-')
-        # first is the <a> corner, second the <b> corner
-        ctx.assume(f.im < s.im if a[0] == 'l' else f.im > s.im)
-        ctx.assume(f.re < s.re if a[1] == 'l' else f.re > s.re)
+        return pos, c[a], c[b]
 
     def sym(self, ctx, cfg):
         sh = repo_module(SH)
         rot = _rot_input(ctx, cfg)
-        f, s, p = ctx.cplx('f'), ctx.cplx('s'), ctx.cplx('p')
-        self._order(ctx, f, s, cfg['order'])
+        pos, f, s = self._corners(ctx, cfg['order'])
+        q = ctx.cplx('q')
+        p = pos + q
         R = sh.Rectangle(f, s, rot)
         V = R.vertices
         res = bool(R.is_point_inside_shape(p))
         cr = _edge_crosses(V, p)
+        size2 = (_c(s) - _c(f)).abs2() + q.abs2()
         slack = 0
         if _lit(cfg) not in (None, 0.0):
             # literal cos/sin: c^2+s^2 = 1 +- 1e-16; margin scaled by the
             # squared size of the figure
-            size2 = (_c(s) - _c(f)).abs2() + (_c(p) - _c(f)).abs2()
             slack = size2 * TOL
         if res:
-            ctx.prove('True=>in-closed-polygon-of-vertices',
-                      _in_closed(cr, slack))
+            prove2(ctx, 'True=>in-closed-polygon-of-vertices',
+                   _in_closed(cr, slack), _in_closed(cr, size2 * MARGIN))
         else:
-            ctx.prove('False=>not-in-open-polygon-of-vertices',
-                      Not(_in_open(cr, slack)))
+            prove2(ctx, 'False=>not-in-open-polygon-of-vertices',
+                   Not(_in_open(cr, slack)), Not(_in_open(cr, size2 * MARGIN)))
 
     @staticmethod
     def _judge(R, p, tol=1e-9):
@@ -343,9 +364,13 @@ class RectContain(Harness):
         sh = repo_module(SH)
         m = model_floats(model)
         rot = _angle_from_model(m, 'rot', _lit(cfg))
-        f = complex(m['f_re'], m['f_im'])
-        s = complex(m['s_re'], m['s_im'])
-        p = complex(m['p_re'], m['p_im'])
+        pos = complex(m['pos_re'], m['pos_im'])
+        w, h = m['w'], m['h']
+        c = dict(ll=pos - w - 1j * h, ur=pos + w + 1j * h,
+                 ul=pos - w + 1j * h, lr=pos + w - 1j * h)
+        a, b = cfg['order'].split('-')
+        f, s = c[a], c[b]
+        p = pos + complex(m['q_re'], m['q_im'])
         R = sh.Rectangle(f, s, rot)
         bad, got, mg, V = self._judge(R, p)
         r180 = abs(math.remainder(rot, 180.0)) < 1e-9
